@@ -119,7 +119,15 @@ struct Lex {
    bool mask_of(Specifiers s, std::uint32_t& mask, std::string& why) const
    {
       mask = 0;
-      for (auto& b : L.decompose(s)) {
+      std::vector<Basic_specifier> parts;
+      try {
+         parts = L.decompose(s);
+      }
+      catch (const std::exception& e) {
+         why = std::string("refused: decomposing a union of basic specifiers raised ") + e.what();
+         return false;
+      }
+      for (auto& b : parts) {
          const std::string sp = spelled(b.logogram());
          int k = -1;
          for (int i = 0; i < n_spec; ++i)
@@ -139,7 +147,15 @@ struct Lex {
    bool qmask_of(Qualifiers q, unsigned& mask, std::string& why) const
    {
       mask = 0;
-      for (auto& b : L.decompose(q)) {
+      std::vector<Basic_qualifier> parts;
+      try {
+         parts = L.decompose(q);
+      }
+      catch (const std::exception& e) {
+         why = std::string("refused: decomposing a union of basic qualifiers raised ") + e.what();
+         return false;
+      }
+      for (auto& b : parts) {
          const std::string sp = spelled(b.logogram());
          int k = -1;
          for (int i = 0; i < n_qual; ++i)
@@ -324,7 +340,7 @@ void exhaustive(const vf::Options& o, vf::Tally& tally)
    for (unsigned Q = 0; Q < 8; ++Q) {
       unsigned m;
       std::string why;
-      if (!x.qmask_of(x.qof(Q), m, why)) out.fail("C10:decompose:qualifier", why);
+      if (!x.qmask_of(x.qof(Q), m, why)) out.fail("C10:decompose:qualifier", "subset " + std::to_string(Q) + ": " + why);
       else if (m != Q) out.fail("C10:decompose:qualifier", "subset " + std::to_string(Q) + " decomposed to " + std::to_string(m));
       ++n;
    }
